@@ -332,3 +332,144 @@ Proof.
   rewrite multiple_loop_spec; try assumption; try lia.
   destruct (flat_map_out _ _) as [r| | |]; cbn [bind]; try reflexivity. f_equal. f_equal. lia.
 Qed.
+
+(* every glyph a multiple substitution produces carries the characters of the glyph it replaces *)
+Theorem multiple_replicates_characters : forall subs g out,
+  multi_expand subs g = Ok out -> Forall (fun o => g_chars o = g_chars g) out.
+Proof.
+  intros subs g out. unfold multi_expand.
+  destruct (first_subtable _ subs) as [[[|first rest]|]| | |]; cbn [bind]; intros H; inversion H; subst.
+  - constructor.
+  - constructor; [reflexivity|]. apply Forall_forall. intros o Ho. apply in_map_iff in Ho.
+    destruct Ho as (id & <- & _). reflexivity.
+  - constructor; [reflexivity|constructor].
+Qed.
+
+(* ------------------------------------------------------------------ (d) lookup ordering *)
+Definition keys (mp : list (Z * Z)) : list Z := map fst mp.
+
+Lemma bt_insert_keys_in k v mp x : In x (keys (bt_insert k v mp)) <-> x = k \/ In x (keys mp).
+Proof.
+  unfold keys. induction mp as [|[k' v'] mp IH]; cbn [bt_insert map In fst].
+  - intuition congruence.
+  - destruct (k <? k') eqn:E1; [cbn [map In fst]; intuition congruence|].
+    destruct (k =? k') eqn:E2; cbn [map In fst].
+    + assert (k = k') by lia. subst. intuition congruence.
+    + rewrite IH. intuition congruence.
+Qed.
+
+Lemma strictly_sorted_cons_lt x l : strictly_sorted l -> (forall y, In y l -> x < y) -> strictly_sorted (x :: l).
+Proof.
+  intros Hs Hlt. destruct l as [|y l]; cbn; [tauto|]. split; [apply Hlt; left; reflexivity|exact Hs].
+Qed.
+
+Lemma strictly_sorted_tail x l : strictly_sorted (x :: l) -> strictly_sorted l.
+Proof. cbn. tauto. Qed.
+
+Lemma bt_insert_sorted k v mp : strictly_sorted (keys mp) -> strictly_sorted (keys (bt_insert k v mp)).
+Proof.
+  unfold keys. induction mp as [|[k' v'] mp IH]; intros Hs; cbn [bt_insert map fst].
+  - cbn. tauto.
+  - destruct (k <? k') eqn:E1.
+    + cbn [map fst]. apply strictly_sorted_cons_lt; [exact Hs|].
+      intros y [<-|Hy]; [lia|]. pose proof (strictly_sorted_lt k' _ Hs y Hy). lia.
+    + destruct (k =? k') eqn:E2.
+      * assert (k = k') by lia. subst. exact Hs.
+      * cbn [map fst]. apply strictly_sorted_cons_lt.
+        -- apply IH. exact (strictly_sorted_tail _ _ Hs).
+        -- intros y Hy. apply (bt_insert_keys_in k v mp y) in Hy. destruct Hy as [->|Hy]; [lia|].
+           exact (strictly_sorted_lt k' _ Hs y Hy).
+Qed.
+
+Lemma bt_extend_sorted ks v mp : strictly_sorted (keys mp) -> strictly_sorted (keys (bt_extend ks v mp)).
+Proof.
+  unfold bt_extend. revert mp; induction ks as [|k ks IH]; intros mp Hs; cbn [fold_left]; [exact Hs|].
+  apply IH. apply bt_insert_sorted. exact Hs.
+Qed.
+
+Lemma bt_extend_keys_in ks v mp x : In x (keys (bt_extend ks v mp)) <-> In x ks \/ In x (keys mp).
+Proof.
+  unfold bt_extend. revert mp; induction ks as [|k ks IH]; intros mp; cbn [fold_left In]; [tauto|].
+  rewrite IH, bt_insert_keys_in. intuition.
+Qed.
+
+(* tags recorded in the map are tags of enabled features *)
+Lemma bt_insert_vals k v mp x : In x (map snd (bt_insert k v mp)) -> x = v \/ In x (map snd mp).
+Proof.
+  induction mp as [|[k' v'] mp IH]; cbn [bt_insert map In snd]; [intuition congruence|].
+  destruct (k <? k'); [cbn [map In snd]; intuition congruence|]. destruct (k =? k'); cbn [map In snd]; [intuition congruence|].
+  intros [H|H]; [intuition congruence|]. apply IH in H. intuition congruence.
+Qed.
+
+Lemma bt_extend_vals ks v mp x : In x (map snd (bt_extend ks v mp)) -> x = v \/ In x (map snd mp).
+Proof.
+  unfold bt_extend. revert mp; induction ks as [|k ks IH]; intros mp; cbn [fold_left]; [tauto|].
+  intros H. apply IH in H. destruct H as [H|H]; [tauto|]. apply bt_insert_vals in H. tauto.
+Qed.
+
+(* the lookups an enabled (non-rvrn) feature contributes *)
+Definition contributes (t : layout_table) (ls : langsys) (feature_tags : list (Z * option Z)) (k : Z) : Prop :=
+  exists tag alt idx, In (tag, alt) feature_tags /\ tag <> TAG_EARLY /\
+                      find_langsys_feature t ls tag = Ok (Some idx) /\ In k idx.
+
+Lemma build_lookups_custom_spec t ls : forall feature_tags rvrn mp rvrn' mp',
+  build_lookups_custom t ls feature_tags rvrn mp = Ok (rvrn', mp') ->
+  strictly_sorted (keys mp) ->
+  strictly_sorted (keys mp') /\
+  (forall k, In k (keys mp') <-> In k (keys mp) \/ contributes t ls feature_tags k) /\
+  (forall tg, In tg (map snd mp') -> In tg (map snd mp) \/ In tg (map fst feature_tags)).
+Proof.
+  induction feature_tags as [|[tag alt] rest IH]; intros rvrn mp rvrn' mp' H Hs; cbn [build_lookups_custom] in H.
+  - inversion H; subst. split; [exact Hs|]. split; [|tauto].
+    intros k. split; [tauto|]. intros [Hk|(tag & alt & idx & [] & _)]. exact Hk.
+  - destruct (find_langsys_feature t ls tag) as [[idx|]| | |] eqn:Ef; cbn [bind] in H; try discriminate.
+    + destruct (tag =? TAG_EARLY) eqn:Et.
+      * destruct (IH _ _ _ _ H Hs) as (S1 & S2 & S3). split; [exact S1|]. split.
+        -- intros k. rewrite S2. split; intros [Hk|Hk]; try tauto.
+           ++ right. destruct Hk as (tg & al & ix & Hin & Hne & Hf & Hk). exists tg, al, ix. repeat split; try assumption. right; exact Hin.
+           ++ destruct Hk as (tg & al & ix & [Heq|Hin] & Hne & Hf & Hk).
+              ** inversion Heq; subst. lia.
+              ** right. exists tg, al, ix. repeat split; assumption.
+        -- intros tg Htg. apply S3 in Htg. cbn [map fst In]. tauto.
+      * pose proof (bt_extend_sorted idx tag mp Hs) as Hs2.
+        destruct (IH _ _ _ _ H Hs2) as (S1 & S2 & S3). split; [exact S1|]. split.
+        -- intros k. rewrite S2, bt_extend_keys_in. split.
+           ++ intros [[Hk|Hk]|Hk]; try tauto.
+              ** right. exists tag, alt, idx. repeat split; try assumption; [left; reflexivity|lia].
+              ** right. destruct Hk as (tg & al & ix & Hin & Hne & Hf & Hk). exists tg, al, ix. repeat split; try assumption. right; exact Hin.
+           ++ intros [Hk|(tg & al & ix & [Heq|Hin] & Hne & Hf & Hk)]; try tauto.
+              ** inversion Heq; subst. rewrite Ef in Hf. inversion Hf; subst. tauto.
+              ** right. exists tg, al, ix. repeat split; assumption.
+        -- intros tg Htg. apply S3 in Htg. cbn [map fst In]. destruct Htg as [Htg|Htg]; [|tauto].
+           apply bt_extend_vals in Htg. intuition congruence.
+    + destruct (IH _ _ _ _ H Hs) as (S1 & S2 & S3). split; [exact S1|]. split.
+      * intros k. rewrite S2. split; intros [Hk|Hk]; try tauto.
+        -- right. destruct Hk as (tg & al & ix & Hin & Hne & Hf & Hk). exists tg, al, ix. repeat split; try assumption. right; exact Hin.
+        -- destruct Hk as (tg & al & ix & [Heq|Hin] & Hne & Hf & Hk).
+           ++ inversion Heq; subst. rewrite Ef in Hf. discriminate.
+           ++ right. exists tg, al, ix. repeat split; assumption.
+      * intros tg Htg. apply S3 in Htg. cbn [map fst In]. tauto.
+Qed.
+
+(* Enabled features' lookups are applied in ascending lookup-list index, each once: the list handed to
+   apply_lookups_custom (which walks it front to back) is strictly increasing in the lookup index and holds
+   exactly the indices contributed by the enabled features found in the language system. *)
+Theorem lookups_applied_in_list_order : forall t ls feature_tags rvrn lks,
+  build_lookups_custom t ls feature_tags None [] = Ok (rvrn, lks) ->
+  strictly_sorted (map fst lks) /\
+  (forall k, In k (map fst lks) <-> contributes t ls feature_tags k) /\
+  (forall tg, In tg (map snd lks) -> In tg (map fst feature_tags)).
+Proof.
+  intros t ls feature_tags rvrn lks H.
+  destruct (build_lookups_custom_spec t ls feature_tags None [] rvrn lks H) as (S1 & S2 & S3); [cbn; tauto|].
+  split; [exact S1|]. split.
+  - intros k. rewrite (S2 k). cbn. tauto.
+  - intros tg Htg. apply S3 in Htg. cbn in Htg. tauto.
+Qed.
+
+Lemma strictly_sorted_NoDup l : strictly_sorted l -> NoDup l.
+Proof.
+  induction l as [|x l IH]; intros Hs; constructor.
+  - intros Hin. pose proof (strictly_sorted_lt x l Hs x Hin). lia.
+  - apply IH. exact (strictly_sorted_tail _ _ Hs).
+Qed.
